@@ -241,6 +241,31 @@ def gen_tree(rng: Any, *, max_depth: int = 4, max_fanout: int = 4, max_nodes: in
     return {"nodes": nodes, "resources": {str(k): v for k, v in resources.items()}}
 
 
+def add_funnel(tree: dict[str, Any], rng: Any) -> dict[str, Any]:
+    """one more child of the root, declared *last*, which publishes a resource after one virtual second - and every other child of the
+    root asks for that resource first thing: all the siblings, however many, are waiting at once for the last one"""
+    nodes, resources = tree["nodes"], tree["resources"]
+    root = nodes[""]
+    if not root["children"]:
+        return tree
+    t, n = rng.randrange(N_TYPES), "funnel"  # (a name that nothing else in the tree uses)
+    rid = str(max([int(k) for k in resources] + [0]) + 1000)
+    alias = f"c{len(root['children']) + 500}"
+    resources[rid] = {"type": t, "name": n, "given_name": n, "kind": "static", "extra_type": None, "by": alias, "phase": "start", "teardown": False, "overlap_type": None}
+    for c in root["children"]:
+        node = nodes[c]
+        phase = "prepare" if node["has_prepare"] else ("start" if node["has_start"] and not node["children"] else None)
+        if phase is not None:
+            node[phase].insert(0, ["wait", int(rid), 0])
+    template = dict(nodes[root["children"][0]])
+    template.update({"path": alias, "alias": alias, "has_prepare": False, "has_start": True, "prepare": [], "start": [["sleep", 1], ["publish", int(rid), 0, 0]],
+                     "children": [], "via_config": False, "naming": "class", "publishes_self": None, "start_ctx_teardown": False})
+    nodes[alias] = template
+    root["children"].append(alias)
+    tree["funnel"] = True
+    return tree
+
+
 # --------------------------------------------------------------------------- expected schedule
 
 
@@ -1032,6 +1057,8 @@ def check_success(run: Run, *, exact_schedule: bool = True) -> tuple[list[dict[s
     # ownership: published resources visible in the caller's context; teardown probes run LIFO at exit
     if run.via_inject:
         inc("optional_lookups_through_inject", run.via_inject)
+    if run.tree.get("funnel"):
+        inc("trees_with_33plus_children_all_waiting_for_the_child_declared_last")
     if run.overlapping_factories:
         inc("factories_also_declared_for_a_pair_that_a_static_resource_holds", run.overlapping_factories)
     if run.annotated_factories:
